@@ -621,6 +621,18 @@ def evaluate(ctx, r, out, cqm, ref, st):
     mat = np.ascontiguousarray(mat)
     sl = (mat, cols)
     slsrc = f'(np.array({mat.tolist()!r}, dtype=np.{np.dtype(dt).name}), {cols!r})' if labs else f'(np.empty(({nrows}, 0)), [])'
+    if labs and r.random() < .3:
+        # round 8: the same labelled rows handed over in the other samples_like forms `as_samples` dispatches on
+        dicts = [{c_: mat[i, j].item() for j, c_ in enumerate(cols)} for i in range(nrows)]
+        form = r.choice(['list of dicts', 'SampleSet', 'dict' if nrows == 1 else 'list of dicts'])
+        if form == 'list of dicts':
+            sl = dicts; slsrc = repr(dicts)
+        elif form == 'dict':
+            sl = dicts[0]; slsrc = repr(dicts[0])
+        else:
+            sl = SampleSet.from_samples((mat, cols), vartype='INTEGER', energy=[0] * nrows)
+            slsrc = f'SampleSet.from_samples({slsrc}, vartype="INTEGER", energy={[0] * nrows!r})'
+        ctx.tick('from_samples_cqm given a ' + form)
     try:
         ss = SampleSet.from_samples_cqm(sl, cqm, **tol)
         rec = ss.record
@@ -775,8 +787,6 @@ def evaluate(ctx, r, out, cqm, ref, st):
     # variables also ONE sample given as an empty dict — `len({}) == 0` — recorded as coded)
     if r.random() < .12:
         forms = [('[]', [], 0), (f'np.empty((0, {len(labs)}))', np.empty((0, len(labs))), 0), (f'(np.empty((0, {len(labs)})), {labs!r})', (np.empty((0, len(labs))), labs), 2)]
-        if not labs:
-            forms.append(('{}', {}, 0))
         fsrc, farg, flen = r.choice(forms)
         try:
             e0 = SampleSet.from_samples_cqm(farg, cqm, **tol)
@@ -791,6 +801,29 @@ def evaluate(ctx, r, out, cqm, ref, st):
             fail('SampleSet.from_samples_cqm', 'no rows', f'{nrow0} rows reported for an input without rows', f'assert len(SampleSet.from_samples_cqm({fsrc}, cqm)) == 0\n')
             return False
         out.append(dict(lines=[f'feas0 {flen}'], expect=got0, src=list(src), rows=[]))
+    if not labs:
+        # round 8 (judged: "for every CQM and sample"): ONE sample given as an empty dict, for a model without variables, is one row and
+        # is evaluated like `check_feasible({})` / `violations({})` / `from_samples_cqm([{}], cqm)` evaluate it — `len({}) == 0` is not "no rows"
+        per_d, feas_d, en_d = definition(ref, {}, atol, rtol)
+        try:
+            e1 = SampleSet.from_samples_cqm({}, cqm, **tol)
+            n1 = len(e1.record)
+            got1 = (n1, [F(float(t)) for t in e1.record.energy], [bool(b) for b in e1.record.is_satisfied[0]] if n1 else None,
+                    [bool(b) for b in e1.record.is_feasible], list(e1.info.get('constraint_labels', [])), bool(cqm.check_feasible({}, **tol)))
+        except Exception as e:  # noqa
+            got1 = f'{type(e).__name__}: {e}'
+        want1 = (1, [en_d], [per_d[l][3] for l in ref.cons], [feas_d], list(ref.cons), feas_d)
+        ctx.tick('from_samples_cqm: one empty-dict sample, model without variables')
+        ctx.case(('empty-dict', tuple(src), str(atol), str(rtol)), nontrivial=bool(ref.cons))
+        if got1 != want1:
+            fail('SampleSet.from_samples_cqm', 'one empty-dict sample, model without variables',
+                 f'(rows, energy, is_satisfied[0], is_feasible, constraint_labels, check_feasible({{}})) = {got1!r}; the definition gives {want1!r}',
+                 f's = SampleSet.from_samples_cqm({{}}, cqm{tolkw})\nassert len(s) == 1, "one sample (an empty dict) was given, " + str(len(s)) + " rows reported"\n'
+                 f'assert [float(t) for t in s.record.energy] == {[float(en_d)]!r}\nassert [bool(b) for b in s.record.is_satisfied[0]] == {[per_d[l][3] for l in ref.cons]!r}\n'
+                 f'assert bool(s.record.is_feasible[0]) == bool(cqm.check_feasible({{}}{tolkw})) == {feas_d!r}\n')
+            return False
+        sat1 = ''.join(str(int(b)) for b in got1[2])
+        out.append(dict(lines=[f'feas0m 1 0 {rat(atol)} {rat(rtol)}'], expect=f'R {sat1}|{int(got1[3][0])}|{rat(got1[1][0])}', src=list(src), rows=[]))
     st['src'] = src + ran      # the evaluations are part of what happened to this object
     return True
 
@@ -1086,7 +1119,7 @@ def default_tolerance_boundary(ctx, r, out):
 
 def run(ctx):
     r = ctx.rng
-    n = ctx.scale(1400, 30000)
+    n = ctx.scale(800, 12000)
     ctx.rule = ('random CQMs (0-4 variables of all four types, 0-4 constraints of mixed senses, hard and soft side by side, linear and '
                 'quadratic penalties, constant-only objectives/constraints, wide INTEGER variables) x 1-5 in-domain rows x dyadic atol/rtol incl. 0, '
                 'evaluated when freshly built and again on the SAME object after each of 1-4 mutations (label swaps / cycles, relabel to new '
